@@ -204,7 +204,11 @@ func c10Gen(rt *rapid.T) *hist.Case {
 		case 0, 1, 2, 3:
 			return hist.Action{Kind: "publish", Client: 1, Topic: "t/a", QoS: byte(rapid.IntRange(1, 2).Draw(rt, "qos"))}
 		case 4, 5:
-			return hist.Action{Kind: "ack", Client: 0, Index: rapid.IntRange(0, 4).Draw(rt, "idx")}
+			a := hist.Action{Kind: "ack", Client: 0, Index: rapid.IntRange(0, 4).Draw(rt, "idx")}
+			if ver == 5 && rapid.IntRange(0, 4).Draw(rt, "success-code") == 0 {
+				a.Reason = 0x10 // "no matching subscribers": a success code; a PUBREC carrying it keeps the exchange (and its identifier) open
+			}
+			return a
 		case 6, 7:
 			// the client's own publish with an identifier that is likely to equal one the broker is using towards it
 			return hist.Action{Kind: "publish", Client: 0, Topic: "u/x", QoS: byte(rapid.IntRange(1, 2).Draw(rt, "oqos")), PID: small.Draw(rt, "pid")}
